@@ -74,6 +74,20 @@ def calib(cell):
             out.append({'msg': 'calc_powder_sens with bare temperature 0 differs from Fahrenheit(0)', 'key': None})
         elif abs((a_c.get_velocity_for_temp(0) >> FPS) - (v0 - 30)) > 1e-9 * v0:
             out.append({'msg': f'calibrated with (v0-30 fps, bare 0): v(bare 0) = {a_c.get_velocity_for_temp(0) >> FPS!r}, second measurement {v0 - 30}', 'key': None})
+    # the two measurements may be expressed in different velocity units, and the stated velocity may have been re-displayed in place
+    ref_mod = pb.Ammo(dm, FPS(v0), U(t0u)(t0), use_powder_sensitivity=True).calc_powder_sens(FPS(v0 + dv), temp(t1c))
+    for u0n, u1n, redisplay in (('MPS', 'FPS', None), ('FPS', 'MPS', None), ('KMH', 'KT', None), ('FPS', 'FPS', 'MPS'), ('MPS', 'MPS', 'FPS')):
+        n += 1
+        u0, u1 = U(u0n), U(u1n)
+        a_u = pb.Ammo(dm, u0(FPS(v0) >> u0), U(t0u)(t0), use_powder_sensitivity=True)
+        if redisplay:
+            a_u.mv << U(redisplay)
+        m_u = a_u.calc_powder_sens(u1(FPS(v0 + dv) >> u1), temp(t1c))
+        g_u = a_u.get_velocity_for_temp(temp(t1c)) >> FPS
+        if abs(g_u - (v0 + dv)) > 1e-9 * v0 or abs(m_u - ref_mod) > 1e-9 * max(abs(ref_mod), 1e-3):
+            out.append({'msg': f'baseline given in {u0n}' + (f' (re-displayed in {redisplay})' if redisplay else '') + f', second measurement in {u1n}: modifier {m_u!r} '
+                               f'(all in fps: {ref_mod!r}), velocity at the second temperature {g_u!r} fps instead of {v0 + dv}', 'key': None})
+            break
     # calibrated from a second measurement
     a = pb.Ammo(dm, FPS(v0), U(t0u)(t0), use_powder_sensitivity=True)
     m = a.calc_powder_sens(FPS(v0 + dv), temp(t1c))
